@@ -44,6 +44,11 @@ def blob_of(x):
     return float(0.731 * x[0] + 1.37 * x[-1] + 0.0137 * np.sum(x * x) + 0.5)
 
 
+def call_noise(serial):
+    """Deterministic 'noise' of the serial-th call of a pseudo-marginal likelihood (so that a record can be tied to the call it came from)."""
+    return 1e-3 * ((float(serial) * 0.6180339887498949) % 1.0)
+
+
 def blob_cast(b, dtype):
     """What a likelihood returning a scalar blob of a narrower numeric type hands back for the tag `b` (None: plain float)."""
     if not dtype:
